@@ -3,6 +3,7 @@ import AslProofs.Solve
 import AslProofs.Euler
 import AslProofs.AxisAngle
 import AslProofs.RealTrig
+import AslProofs.RotSO3
 import Mathlib.LinearAlgebra.Matrix.Nondegenerate
 import Mathlib.LinearAlgebra.CrossProduct
 import Gen.Vec3Gen
@@ -22,7 +23,7 @@ Property theorems only (helper lemmas: `AslProofs/Matrix.lean`, `AslProofs/Solve
   interface the models are written against); nothing here is about IEEE floating point.
 -/
 namespace C20
-open AslModel AslModel.Solve AslProofs.Matrix AslProofs.Solve AslProofs.Euler AslProofs.AxisAngle AslProofs.RealTrig
+open AslModel AslModel.Solve AslProofs.RotSO3 AslProofs.Matrix AslProofs.Solve AslProofs.Euler AslProofs.AxisAngle AslProofs.RealTrig
 
 variable {K : Type} [Field K]
 
@@ -89,6 +90,41 @@ theorem mulVec3_affine (a : Nat → Nat → K) (p : V3 K) :
   constructor <;> intro i <;>
     fin_cases i <;> simp [toV3, toM4, Gen.M4.mulVec3, Gen.M4.modVec3, Matrix.mulVec, dotProduct, Fin.sum_univ_succ] <;> ring
 
+/-- `(A·B).transposed() = B.transposed() · A.transposed()` for the code's own product and transpose -/
+theorem transposed4_mul (a b : Nat → Nat → K) :
+    toM4 (Gen.M4.transposed (fld K) (Gen.M4.mul (fld K) a b)) =
+      toM4 (Gen.M4.mul (fld K) (Gen.M4.transposed (fld K) b) (Gen.M4.transposed (fld K) a)) := by
+  rw [transposed4_eq_mathlib, mul4_eq_mathlib, mul4_eq_mathlib, transposed4_eq_mathlib, transposed4_eq_mathlib,
+    Matrix.transpose_mul]
+
+/-- `A.transposed().inverse() = A.inverse().transposed()` for every non-singular `A` -/
+theorem inverse4_transposed (a : Nat → Nat → K) (h : (toM4 a).det ≠ 0) :
+    toM4 (Gen.M4.inverse (fld K) (Gen.M4.transposed (fld K) a)) =
+      toM4 (Gen.M4.transposed (fld K) (Gen.M4.inverse (fld K) a)) := by
+  have h' : (toM4 (Gen.M4.transposed (fld K) a)).det ≠ 0 := by
+    rw [transposed4_eq_mathlib, Matrix.det_transpose]; exact h
+  rw [inverse4_eq_mathlib _ h', transposed4_eq_mathlib, transposed4_eq_mathlib, inverse4_eq_mathlib a h,
+    Matrix.transpose_nonsing_inv]
+
+/-- `(A·B).inverse() = B.inverse() · A.inverse()` for non-singular `A`, `B` -/
+theorem inverse4_mul (a b : Nat → Nat → K) (ha : (toM4 a).det ≠ 0) (hb : (toM4 b).det ≠ 0) :
+    toM4 (Gen.M4.inverse (fld K) (Gen.M4.mul (fld K) a b)) =
+      toM4 (Gen.M4.mul (fld K) (Gen.M4.inverse (fld K) b) (Gen.M4.inverse (fld K) a)) := by
+  have hab : (toM4 (Gen.M4.mul (fld K) a b)).det ≠ 0 := by
+    rw [mul4_eq_mathlib, Matrix.det_mul]; exact mul_ne_zero ha hb
+  rw [inverse4_eq_mathlib _ hab, mul4_eq_mathlib, mul4_eq_mathlib, inverse4_eq_mathlib a ha, inverse4_eq_mathlib b hb,
+    Matrix.mul_inv_rev]
+
+/-- points versus vectors: the difference of two transformed points (`operator*`, homogeneous coordinate 1) is the
+transformed difference vector (`operator%`, homogeneous coordinate 0) — the translation column cancels; and `operator%`
+is additive -/
+theorem point_vector_transform (a : Nat → Nat → K) (p q : V3 K) :
+    Gen.V3.sub (fld K) (Gen.M4.mulVec3 (fld K) a p) (Gen.M4.mulVec3 (fld K) a q) =
+      Gen.M4.modVec3 (fld K) a (Gen.V3.sub (fld K) p q) ∧
+    Gen.M4.modVec3 (fld K) a (Gen.V3.add (fld K) p q) =
+      Gen.V3.add (fld K) (Gen.M4.modVec3 (fld K) a p) (Gen.M4.modVec3 (fld K) a q) := by
+  constructor <;> simp [Gen.V3.sub, Gen.V3.add, Gen.M4.mulVec3, Gen.M4.modVec3] <;> refine ⟨?_, ?_, ?_⟩ <;> ring
+
 /-! ## Matrix3 -/
 
 /-- `Matrix3_::det()` is the determinant -/
@@ -136,6 +172,28 @@ theorem mulVec3_eq_mathlib (a : Nat → Nat → K) (p : V3 K) :
     toV3 (Gen.M3.mulVec3 (fld K) a p) = (toM3 a).mulVec (toV3 p) := by
   ext i
   fin_cases i <;> simp [toV3, toM3, Gen.M3.mulVec3, Matrix.mulVec, dotProduct, Fin.sum_univ_succ] <;> ring
+
+theorem transposed3_mul (a b : Nat → Nat → K) :
+    toM3 (Gen.M3.transposed (fld K) (Gen.M3.mul (fld K) a b)) =
+      toM3 (Gen.M3.mul (fld K) (Gen.M3.transposed (fld K) b) (Gen.M3.transposed (fld K) a)) := by
+  rw [transposed3_eq_mathlib, mul3_eq_mathlib, mul3_eq_mathlib, transposed3_eq_mathlib, transposed3_eq_mathlib,
+    Matrix.transpose_mul]
+
+theorem inverse3_transposed (a : Nat → Nat → K) (h : (toM3 a).det ≠ 0) :
+    toM3 (Gen.M3.inverse (fld K) (Gen.M3.transposed (fld K) a)) =
+      toM3 (Gen.M3.transposed (fld K) (Gen.M3.inverse (fld K) a)) := by
+  have h' : (toM3 (Gen.M3.transposed (fld K) a)).det ≠ 0 := by
+    rw [transposed3_eq_mathlib, Matrix.det_transpose]; exact h
+  rw [inverse3_eq_mathlib _ h', transposed3_eq_mathlib, transposed3_eq_mathlib, inverse3_eq_mathlib a h,
+    Matrix.transpose_nonsing_inv]
+
+theorem inverse3_mul (a b : Nat → Nat → K) (ha : (toM3 a).det ≠ 0) (hb : (toM3 b).det ≠ 0) :
+    toM3 (Gen.M3.inverse (fld K) (Gen.M3.mul (fld K) a b)) =
+      toM3 (Gen.M3.mul (fld K) (Gen.M3.inverse (fld K) b) (Gen.M3.inverse (fld K) a)) := by
+  have hab : (toM3 (Gen.M3.mul (fld K) a b)).det ≠ 0 := by
+    rw [mul3_eq_mathlib, Matrix.det_mul]; exact mul_ne_zero ha hb
+  rw [inverse3_eq_mathlib _ hab, mul3_eq_mathlib, mul3_eq_mathlib, inverse3_eq_mathlib a ha, inverse3_eq_mathlib b hb,
+    Matrix.mul_inv_rev]
 
 /-! ## Vec3 -/
 
@@ -527,13 +585,64 @@ theorem rotation_matrix_partial (C : Cmp R) (hlt : ∀ a b, C.lt a b = decide (a
   rcases rotation_correct_ordered C hlt hsqrt q hq with e | e <;> rw [e]
   exact quat_neg_same_matrix q
 
-/-- the full statement (every proper rotation matrix, not only those known to be `matrix q`); it follows from
-`rotation_matrix_partial` and the surjectivity of `q ↦ matrix q` onto SO(3), which is not proved here -/
+/-- the full statement: every proper rotation matrix (`a·aᵀ = 1`, `det a = 1`; not only those known to be `matrix q`)
+is reproduced by `matrix(rotation(a))` -/
 def rotation_matrix_full (C : Cmp R) : Prop :=
   ∀ a : Nat → Nat → R, toM3 a * (toM3 a).transpose = 1 → (toM3 a).det = 1 →
     toM3 (Gen.Q.matrix (fld R) (Gen.M4.rotation (fld R) C a)) = toM3 a
 
+/-- **guard coverage** for an arbitrary matrix (no orthogonality needed): the guards of `rotation()` are exhaustive, the
+branch taken is one of the four, and its radicand is `≥ 1` — so the root is non-zero and no branch divides by zero -/
+theorem rotation_guards_exhaustive (C : Cmp R) (hlt : ∀ a b, C.lt a b = decide (a < b)) (a : Nat → Nat → R) :
+    (Gen.M4.rotation (fld R) C a = Gen.M4.rotBranch0 (fld R) a (C.sqrt (Gen.M4.rotRadicand0 (fld R) a)) ∧ 1 ≤ Gen.M4.rotRadicand0 (fld R) a) ∨
+    (Gen.M4.rotation (fld R) C a = Gen.M4.rotBranch1 (fld R) a (C.sqrt (Gen.M4.rotRadicand1 (fld R) a)) ∧ 1 ≤ Gen.M4.rotRadicand1 (fld R) a) ∨
+    (Gen.M4.rotation (fld R) C a = Gen.M4.rotBranch2 (fld R) a (C.sqrt (Gen.M4.rotRadicand2 (fld R) a)) ∧ 1 ≤ Gen.M4.rotRadicand2 (fld R) a) ∨
+    (Gen.M4.rotation (fld R) C a = Gen.M4.rotBranch3 (fld R) a (C.sqrt (Gen.M4.rotRadicand3 (fld R) a)) ∧ 1 ≤ Gen.M4.rotRadicand3 (fld R) a) :=
+  rotation_selects_gen C hlt a
+
+/-- **`rotation_matrix_full` holds**: with `<` as comparison and a `sqrt` that is a square root on non-negative arguments,
+`matrix(rotation(a)) = a` (3×3 block) for EVERY orthogonal `a` of determinant one, whichever branch is taken -/
+theorem rotation_matrix_full_holds (C : Cmp R) (hlt : ∀ a b, C.lt a b = decide (a < b))
+    (hsqrt : ∀ z, 0 ≤ z → C.sqrt z * C.sqrt z = z) : rotation_matrix_full C := by
+  intro a ho hd
+  have h := so3_rel a ho hd
+  have h2 : (2 : R) ≠ 0 := two_ne_zero
+  have key : ∀ z : R, 1 ≤ z → C.sqrt z * C.sqrt z = z ∧ C.sqrt z ≠ 0 := by
+    intro z hz
+    have hh := hsqrt z (by linarith)
+    refine ⟨hh, ?_⟩
+    intro e
+    rw [e] at hh
+    linarith
+  rcases rotation_selects_gen C hlt a with ⟨e, hg⟩ | ⟨e, hg⟩ | ⟨e, hg⟩ | ⟨e, hg⟩ <;> rw [e]
+  · exact branch0_so3 a h h2 _ (key _ hg).1 (key _ hg).2
+  · exact branch1_so3 a h h2 _ (key _ hg).1 (key _ hg).2
+  · exact branch2_so3 a h h2 _ (key _ hg).1 (key _ hg).2
+  · exact branch3_so3 a h h2 _ (key _ hg).1 (key _ hg).2
+
 end axisangle
+
+/-- each branch on its own, over any field with `2 ≠ 0` and without any order: on a proper rotation matrix, the branch
+whose root `r` is a non-zero square root of its own radicand returns a quaternion with that matrix -/
+theorem rotation_branch_sound_so3 (a : Nat → Nat → K) (ho : toM3 a * (toM3 a).transpose = 1) (hd : (toM3 a).det = 1)
+    (h2 : (2 : K) ≠ 0) (r : K) (h0 : r ≠ 0) :
+    (r * r = Gen.M4.rotRadicand0 (fld K) a → toM3 (Gen.Q.matrix (fld K) (Gen.M4.rotBranch0 (fld K) a r)) = toM3 a) ∧
+    (r * r = Gen.M4.rotRadicand1 (fld K) a → toM3 (Gen.Q.matrix (fld K) (Gen.M4.rotBranch1 (fld K) a r)) = toM3 a) ∧
+    (r * r = Gen.M4.rotRadicand2 (fld K) a → toM3 (Gen.Q.matrix (fld K) (Gen.M4.rotBranch2 (fld K) a r)) = toM3 a) ∧
+    (r * r = Gen.M4.rotRadicand3 (fld K) a → toM3 (Gen.Q.matrix (fld K) (Gen.M4.rotBranch3 (fld K) a r)) = toM3 a) :=
+  have h := so3_rel a ho hd
+  ⟨fun hr => branch0_so3 a h h2 r hr h0, fun hr => branch1_so3 a h h2 r hr h0,
+   fun hr => branch2_so3 a h h2 r hr h0, fun hr => branch3_so3 a h h2 r hr h0⟩
+
+/-- the hypotheses of `rotation_matrix_full_holds` are satisfiable by a matrix that is not the identity: the quarter turn
+about z over ℚ is orthogonal with determinant one -/
+example : let a : Nat → Nat → ℚ := fun i j => if (i, j) = (0, 1) then -1 else if (i, j) = (1, 0) ∨ (i, j) = (2, 2) then 1 else 0
+    toM3 a * (toM3 a).transpose = 1 ∧ (toM3 a).det = 1 := by
+  intro a
+  constructor
+  · ext i j
+    fin_cases i <;> fin_cases j <;> simp [a, toM3, Matrix.mul_apply, Fin.sum_univ_succ]
+  · simp [a, toM3, Matrix.det_fin_three]
 
 /-- the real functions satisfy `TrigDouble` and `TrigAA` -/
 example : TrigDouble realTrig ∧ TrigAA realTrig := ⟨realTrigDouble, realTrigAA⟩
